@@ -169,11 +169,12 @@ func OneWay(b bpv7.Bundle, m uint64) (res TransferResult) {
 }
 
 // Fault scenarios: the harness plays the receiving peer.
-//   mode "silent": acknowledges the first k segments, then nothing
-//   mode "refuse": acknowledges k segments, then refuses
-//   mode "close":  acknowledges k segments, then the session is closed (manager stopped)
-//   mode "short":  acknowledges every segment, but the k-th and later ones with a length one byte short
-//   mode "zero":   acknowledges with length 0 from the k-th segment on
+//
+//	mode "silent": acknowledges the first k segments, then nothing
+//	mode "refuse": acknowledges k segments, then refuses
+//	mode "close":  acknowledges k segments, then the session is closed (manager stopped)
+//	mode "short":  acknowledges every segment, but the k-th and later ones with a length one byte short
+//	mode "zero":   acknowledges with length 0 from the k-th segment on
 func Faulty(b bpv7.Bundle, m uint64, mode string, k int) (res TransferResult) {
 	vtime.SetVirtual(vtime.Epoch)
 	res.Data = map[uint64][]byte{}
